@@ -26,7 +26,7 @@ var c07Queries = []string{
 	`{ pets { name ... on Cat { toys } ... on Dog { barks } } }`,
 }
 
-var faultKinds = []string{"transport", "gqlerrors", "gqlerrors+data", "node-null", "empty", "wrong-shape", "gqlerrors+null", "timeout", "blank-error"}
+var faultKinds = []string{"transport", "gqlerrors", "gqlerrors+data", "node-null", "empty", "wrong-shape", "gqlerrors+null", "timeout", "blank-error", "gqlerrors+empty"}
 
 type joinSite struct {
 	svc, id string
@@ -397,6 +397,8 @@ func (c07) Run(c *Ctx, i int) CaseResult {
 			wantMsgs["injected-with-null"] += n
 		case "timeout":
 			wantMsgs["did not answer in time"] += n
+		case "gqlerrors+empty":
+			wantMsgs["injected-with-empty-data"] += n
 		case "join-null+error":
 			// only the calls in which the join position held something were answered that way
 			fc.Injected.mu.Lock()
